@@ -443,8 +443,68 @@ def _boundaries_ok(F, b, A, z, bi, st, en, lt):
         pf = "pfx:" + A.info[lt]["s"]
         if pf in A.info and _le(z, bi, (pf, 0), v, 0) and _le(z, bi, v, (pf, 0), 0):
             return True     # the length of a literal prefix that `starts_with` found at the front of this string
+        # an ASCII byte was just seen at this offset or right before it: bytes[v] == b'_' or bytes[v - 1] == b'x'
+        for k in ascii_tests:
+            kv = (k, 0)
+            if (_le(z, bi, kv, v, 0) and _le(z, bi, v, kv, 0)) or (_le(z, bi, kv, v, -1) and _le(z, bi, v, kv, 1)):
+                return True
         return False
+    ascii_tests = _ascii_byte_tests(b, A, bi, lt)
     return edge(st) and edge(en)
+
+
+def _ascii_byte_tests(b, A, bi, lt):
+    """zone terms k such that `bytes[k] == <ASCII literal>` was tested on an edge dominating block bi, where `bytes` is
+    as_bytes() of the string whose length term is lt"""
+    out = []
+    for sb, blk in enumerate(b.blocks):
+        t = blk["t"]
+        if t["k"] != "switch" or t["ty"] != "bool" or t.get("cleanup"):
+            continue
+        c = A._cmp_of(sb, t["o"])
+        if c is None or c[0] not in ("Eq",):
+            continue
+        for x, y in ((c[1], c[2]), (c[2], c[1])):
+            cv = const_int(y)
+            if cv is None:
+                k = y.get("k")
+                d = str(k.get("d")) if k else ""
+                if d.startswith("b'") or d.endswith("_u8"):
+                    try:
+                        cv = int(d.split("_")[0])
+                    except ValueError:
+                        cv = None
+            if cv is None or not (0 <= cv < 128):
+                continue
+            px = op_place(x)
+            if px is None or place_proj(px):
+                continue
+            rv = None
+            for st in reversed(blk["s"]):
+                if not place_proj(st["p"]) and st["p"]["l"] == px["l"]:
+                    rv = st["rv"]
+                    break
+            if rv is None or rv["k"] != "use":
+                continue
+            src = op_place(rv["o"])
+            if src is None:
+                continue
+            pj = place_proj(src)
+            if not pj or pj[-1][0] != "i":
+                continue
+            # the indexed slice must be the bytes of the same string
+            base_local = src["l"]
+            bt = b.trace({"c": {"l": base_local}})
+            same = False
+            if bt["kind"] == "call" and (b.callee_q(bt["t"]) or "").endswith("as_bytes") and bt["t"]["args"]:
+                l2 = A.len_term(bt["t"]["args"][0])
+                same = l2 == lt
+            if not same:
+                continue
+            edge_t = t["otherwise"]
+            if len(b.preds(edge_t)) == 1 and b.dominates(edge_t, bi):
+                out.append("_%d" % pj[-1][1])
+    return out
 
 
 # ------------------------------------------------------------------------------------------------ rule
@@ -469,7 +529,6 @@ C25_EXCEPTIONS = {
     ("import::styles::parse_indexed_colors::{closure#3}", "index:(*raw)[..]"):
         "`raw[2..]` in a match arm whose guard is `raw.len() == 8 && raw.is_ascii()` on the same attribute value; guard and arm bind "
         "`raw` separately (by reference / by copy), which the term naming of the zone engine does not unify",
-    ("import::shared_strings::decode_xlsx_escapes", "index:(*s)[..]"): _ESC,
     ("import::shared_strings::decode_xlsx_escapes", "index:(*s)[..]#2"): _ESC,
     ("import::conditional_formatting::load_conditional_formatting", "usub:iter - priority"):
         "`max_p + 1 - cf.priority` where max_p is the maximum of cf.priority over the very list being iterated",
